@@ -192,6 +192,7 @@ pub fn gen_exec_scenario(id: &str, run_seed: u64) -> Result<Scenario, String> {
         info: Some(info),
         walk: None,
         comp: None,
+        xproc: 0,
     })
 }
 
